@@ -72,7 +72,7 @@ def leaf_monitor(script, c):
 
 
 def api_scripts(tier, rng, n=None):
-    from lib.apigen import default_policy, rand_key, rtp_packet, pkt_op, SSRC_ANY_OUT, SSRC_ANY_IN, SSRC_SPECIFIC
+    from lib.apigen import default_policy, rand_key, rtp_packet, pkt_op, one_byte_ext, SSRC_ANY_OUT, SSRC_ANY_IN, SSRC_SPECIFIC
     out = []
     n = n or (12 if tier == "quick" else 120)
     for k in range(n):
@@ -87,6 +87,11 @@ def api_scripts(tier, rng, n=None):
             # budget like any other
             from lib.apigen import cp, NULL_AUTH
             kw["rtp"] = rng.choice([cp(serv=1), cp(serv=0), cp(auth=NULL_AUTH, authkeylen=0, taglen=0, serv=1)])
+        xtn = k % 5 == 3
+        if xtn:
+            # RFC 6904 ids configured and packets that carry a listed element: the header-extension step runs between the budget
+            # decision and the return, on both sides
+            kw["enc_xtn"] = b"\x01\x07"
         L = []
         if wildcard:
             ps = default_policy(rng, 0, ssrc_type=SSRC_ANY_OUT, **kw)
@@ -97,7 +102,7 @@ def api_scripts(tier, rng, n=None):
             L += [ps.line(1), "create 1 1", "create 2 1"]
         seq = {s: 1 for s in ssrcs}
         def traffic(s, mi=0):
-            pkt = rtp_packet(s, seq[s] & 0xffff, payload=b"budget!!"); seq[s] += 1
+            pkt = rtp_packet(s, seq[s] & 0xffff, payload=b"budget!!", ext=(one_byte_ext([(1, b"ab"), (3, b"c")]) if xtn else None)); seq[s] += 1
             L.append(f"peek 1 {1 if wildcard else 0} {H(s)}")
             L.append(pkt_op("protect", 1, pkt, extra=40, mki_index=mi)); a = len(L)
             L.append(f"peek 1 {1 if wildcard else 0} {H(s)}"); L.append(f"# TX {s:x} {mi}")
